@@ -40,7 +40,7 @@ class MPUFileSink:
 
     @property
     def max_write_sz(self) -> int:
-        return self._limits.get("min_write_sz", 5 * (1 << 30))
+        return self._limits.get("max_write_sz", 5 * (1 << 30))
 
     @property
     def min_part(self) -> int:
@@ -48,7 +48,7 @@ class MPUFileSink:
 
     @property
     def max_part(self) -> int:
-        return self._limits.get("min_part", 10_000)
+        return self._limits.get("max_part", 10_000)
 
     def _ensure_dst_file(self, part: int) -> Path:
         parts_dir = self._parts_dir
